@@ -26,7 +26,7 @@ def run(ctx):
     hooks = sorted(n for n in F.fns if n.startswith("<" + LM + "LimitsModule as radix_engine::system::module::SystemModule>::") and F.fns[n].kind == "AssocFn")
     ctx.floor("limits-hooks", len(hooks), 12)
     for h in hooks:
-        name = h.rsplit("::", 1)[1]
+        name = h.rsplit("::", 1)[-1]
         m = MIX + "::" + name
         cand = [n for n in F.fns if n == m or n.endswith("SystemModuleMixer as radix_engine::system::module::SystemModule>::" + name)]
         done = False
